@@ -1,5 +1,5 @@
 """Confirm and evaluate the two seeded changes of /tmp/mut_<Cnn> and keep them under /verif/seeded/.
-usage: keep_mutants.py <Cnn> <check> [<check> ...]"""
+usage: [MUT_KS=3,4] keep_mutants.py <Cnn> <check> [<check> ...]"""
 import json
 import os
 import shutil
@@ -8,7 +8,7 @@ import sys
 
 prop, checks = sys.argv[1], sys.argv[2:]
 src = f"/tmp/mut_{prop}"
-for k in (1, 2):
+for k in [int(x) for x in os.environ.get("MUT_KS", "1,2").split(",")]:
     patch, demo, meta = f"{src}/mutant_{k}.diff", f"{src}/demo_{k}.py", f"{src}/meta_{k}.json"
     if not (os.path.exists(patch) and os.path.exists(demo)):
         print("missing", patch)
